@@ -609,6 +609,45 @@ MATRIX_ROUTINES = [
 ]
 
 
+def temporary_programs_c17():
+    """Temporaries in a loop: an operand is built, used and dropped (really freed), then the next operand of the same kind
+    and shape but other data is built -- CPython hands it the address just freed -- and so on; plus one single-operand
+    program per operand.  With the cross-history table (operands are identified by value), a result that depends on the
+    id() of a dead operator is reported."""
+    out = []
+
+    def dense(i):  # plain Dense / generic operator: ONE Python object per operand, so the freed address is reused at once
+        return {"k": "dense", "n": 4, "dtype": "f8", "seed": 500 + i, "sym": "psd"}
+
+    def generic(i):
+        return {"k": "generic", "n": 4, "dtype": "f8", "seed": 600 + i, "sym": "psd"}
+
+    for fn, kw, keyed in MATRIX_ROUTINES:
+        for kname, mkrec in (("dense", dense), ("generic", generic)):
+            a = dict(kw)
+            if keyed:
+                a["key"] = 7
+            loop = []
+            for i in range(5):
+                loop += [{"op": "make", "slot": "T%d" % i, "recipe": mkrec(i)},
+                         {"op": "call", "fn": fn, "args": dict({"A": {"slot": "T%d" % i}}, **a)},
+                         {"op": "drop", "slot": "T%d" % i}]
+                single = [{"op": "make", "slot": "T%d" % i, "recipe": mkrec(i)},
+                          {"op": "call", "fn": fn, "args": dict({"A": {"slot": "T%d" % i}}, **a)}]
+                for j, s in enumerate(single):
+                    s["id"] = j
+                out.append({"name": "temporary-single/%s/%s/%d" % (fn, kname, i),
+                            "program": {"property": "C17", "run_seed": 0, "rng0": 3, "config": {"matrix": ["tsingle", fn, kname, i]},
+                                        "mode": "explicit", "steps": single}})
+            for j, s in enumerate(loop):
+                s["id"] = j
+            out.append({"name": "temporary-loop/%s%s/%s" % (fn, "".join("_%s" % v for v in kw.values() if isinstance(v, (str, int))),
+                                                          kname),
+                        "program": {"property": "C17", "run_seed": 0, "rng0": 3, "config": {"matrix": ["tloop", fn, kname]},
+                                    "mode": "explicit", "steps": loop}})
+    return out
+
+
 def matrix_programs_c17():
     out = []
     for fn, kw, keyed in MATRIX_ROUTINES:
@@ -631,7 +670,7 @@ def matrix_programs_c17():
                                                        kname, key),
                             "program": {"property": "C17", "run_seed": 0, "rng0": 3, "config": {"matrix": [fn, kname, str(key)]},
                                         "mode": "explicit", "steps": steps}})
-    return out
+    return out + temporary_programs_c17()
 
 
 # ------------------------------------------------------------------------------------------
